@@ -23,8 +23,8 @@ assert rc == 0, o
 try:
     rc, o = run("git apply %s" % patch, cwd=scratch); meta["ran"].append(["git apply patch.diff", rc])
     assert rc == 0, "patch does not apply: " + o
-    rc1, o1 = run("cargo test --offline --workspace 2>&1 | grep -E '^test result|FAILED|error' | head -5", cwd=scratch)
-    rc2, o2 = run("cargo test --offline --features async,http 2>&1 | grep -E '^test result|FAILED|error' | head -5", cwd=scratch)
+    rc1, o1 = run("cargo test --offline --workspace 2>&1 | grep -E '^test result|FAILED|^error' | head -5", cwd=scratch)
+    rc2, o2 = run("cargo test --offline --features async,http 2>&1 | grep -E '^test result|FAILED|^error' | head -5", cwd=scratch)
     meta["existing_tests_with_change"] = {"default": o1.strip().splitlines()[:2], "async_http": o2.strip().splitlines()[:2]}
     ok_existing = "68 passed; 0 failed" in o1 and "82 passed; 0 failed" in o2
     os.makedirs(os.path.join(scratch, "tests"), exist_ok=True)
